@@ -44,7 +44,7 @@ var (
 	corpus  = flag.String("corpus", "", "corpus file: <tree tokens>;<data tokens> per line, hex encoded")
 	known   = flag.String("known", "", "known_findings.json")
 	workers = flag.Int("workers", 16, "parallel workers")
-	dev     = flag.String("dev", "uqvbr", "deviations the current tree is expected to have: u uncomparable panic, q float != x, v int via float64, b bare path not an existence test in Filter()/Get(x), r parser takes the second argument of match/search apart, - none")
+	dev     = flag.String("dev", "vb", "deviations the current tree is expected to have: u uncomparable panic (before 0a3fd2c), q float != x (before 21415f8), v int via float64, b bare path not an existence test in Equation.Filter(), g nor in Script() of jp.Get(x) (before fe63c88), r parser takes the second argument of match/search apart (before cd355fe), - none")
 )
 
 var rep *lib.Report
@@ -59,7 +59,7 @@ func devHas(c byte) bool { return strings.IndexByte(*dev, c) >= 0 }
 
 // modelDev is the part of -dev the Lean model is parametrised by.
 func modelDev() string {
-	d := strings.ReplaceAll(strings.ReplaceAll(*dev, "b", ""), "r", "")
+	d := strings.NewReplacer("b", "", "g", "", "r", "").Replace(*dev)
 	if d == "" {
 		d = "-"
 	}
@@ -325,7 +325,7 @@ type route struct {
 	impl  string // implementation outcome (panics normalised to "panic" except in match mode)
 	msg   string // panic message if any
 	text  string
-	wrap0 bool // the route keeps a bare path as it is
+	wrap0 byte // 0: the route rewrites a bare path into an existence test; otherwise the -dev letter under which it keeps the bare path
 }
 
 func mapOf(data []any) map[string]any {
@@ -396,13 +396,13 @@ func runRoutes(k kase) []route {
 		sc := guard2(func() *jp.Script { return eq.Script() })
 		if sc != nil {
 			chars, msg := matchChars(sc, data)
-			rs = append(rs, route{name: "builder.match", mode: "match", key: "self", impl: chars, msg: msg, wrap0: true})
+			rs = append(rs, route{name: "builder.match", mode: "match", key: "self", impl: chars, msg: msg, wrap0: 'g'})
 			o, m := listOutcome(func() []any { r, _ := sc.Eval([]any{}, data).([]any); return r }, renderList)
-			rs = append(rs, route{name: "builder.eval", mode: "rev", key: "nil", impl: o, msg: m, wrap0: true})
+			rs = append(rs, route{name: "builder.eval", mode: "rev", key: "nil", impl: o, msg: m, wrap0: 'g'})
 		}
 		x := jp.R().Filter(eq)
 		o, m := listOutcome(func() []any { return x.Get(data) }, renderList)
-		rs = append(rs, route{name: "builder.get", mode: "list", key: "doc", impl: o, msg: m, wrap0: true})
+		rs = append(rs, route{name: "builder.get", mode: "list", key: "doc", impl: o, msg: m, wrap0: 'b'})
 		o, m = listOutcome(func() []any {
 			if v, has := x.FirstFound(data); has {
 				return []any{v}
@@ -414,11 +414,11 @@ func runRoutes(k kase) []route {
 			}
 			return lib.Render(vs[0])
 		})
-		rs = append(rs, route{name: "builder.first", mode: "first", key: "doc", impl: o, msg: m, wrap0: true})
+		rs = append(rs, route{name: "builder.first", mode: "first", key: "doc", impl: o, msg: m, wrap0: 'b'})
 		if !k.t.hasRootPath() {
 			md := mapOf(data)
 			o, m = listOutcome(func() []any { return x.Get(md) }, renderSorted)
-			rs = append(rs, route{name: "builder.getmap", mode: "sorted", key: "doc", impl: o, msg: m, wrap0: true})
+			rs = append(rs, route{name: "builder.getmap", mode: "sorted", key: "doc", impl: o, msg: m, wrap0: 'b'})
 		}
 	}
 	textRoutesOn := true
@@ -469,14 +469,14 @@ func textRoutes(prefix, txt string, data []any, bare bool) []route {
 		return []route{{name: prefix + ".parse", mode: "parse", impl: perr, text: txt}}
 	}
 	chars, msg := matchChars(sc, data)
-	rs = append(rs, route{name: prefix + ".match", mode: "match", key: "self", impl: chars, msg: msg, text: txt, wrap0: false})
+	rs = append(rs, route{name: prefix + ".match", mode: "match", key: "self", impl: chars, msg: msg, text: txt})
 	var x jp.Expr
 	perr = guard(func() string { x = jp.MustParseString("$[?" + txt + "]"); return "" })
 	if isPanic(perr) {
 		return append(rs, route{name: prefix + ".parsefilter", mode: "parse", impl: perr, text: txt})
 	}
 	o, m := listOutcome(func() []any { return x.Get(data) }, renderList)
-	rs = append(rs, route{name: prefix + ".get", mode: "list", key: "doc", impl: o, msg: m, text: "$[?" + txt + "]", wrap0: true})
+	rs = append(rs, route{name: prefix + ".get", mode: "list", key: "doc", impl: o, msg: m, text: "$[?" + txt + "]", wrap0: 'b'})
 	return rs
 }
 
@@ -631,7 +631,8 @@ func judge(k kase, routes []route, model map[string]answer) {
 		// which program the route runs: only a bare path differs (Script() of parsed text turns it into an
 		// existence test; Filter() and Script() of jp.Get(x) do so only once C12-bare-path is repaired)
 		wrap := "0"
-		if bare && (!r.wrap0 || !devHas('b')) {
+		unwrapped := r.wrap0 != 0 && devHas(r.wrap0)
+		if bare && !unwrapped {
 			wrap = "1"
 		}
 		a := model[r.key+wrap]
@@ -663,7 +664,7 @@ func judge(k kase, routes []route, model map[string]answer) {
 		if tie {
 			if rotated {
 				id = fnargID
-			} else if bare && r.wrap0 && devHas('b') {
+			} else if bare && unwrapped {
 				id = bareID
 			} else if expF == expS {
 				for _, c := range []byte(modelDev()) {
@@ -713,8 +714,8 @@ func judge(k kase, routes []route, model map[string]answer) {
 				continue
 			}
 			desc := map[string]any{"tree": tt, "data": dt, "route": pr[0] + " vs " + pr[1], "match": m.impl, "filter": g.impl, "text": m.text, "stream": k.stream}
-			if bare && pr[0] == "text.match" && devHas('b') && lib.HasKnown(knownList, bareID) {
-				rep.Add(lib.Finding{Kind: "known", Class: "match-vs-filter:text:" + bareID, What: "explained by " + bareID, Replay: desc, KnownID: bareID})
+			if bare && devHas('b') && (pr[0] == "text.match" || !devHas('g')) && lib.HasKnown(knownList, bareID) {
+				rep.Add(lib.Finding{Kind: "known", Class: "match-vs-filter:" + strings.SplitN(pr[0], ".", 2)[0] + ":" + bareID, What: "explained by " + bareID, Replay: desc, KnownID: bareID})
 			} else {
 				rep.Add(lib.Finding{Kind: "violation", Class: "match-vs-filter:" + strings.SplitN(pr[0], ".", 2)[0], What: "Script.Match and the filter fragment select different elements", Replay: desc})
 			}
